@@ -83,6 +83,17 @@ impl serde::Serializer for BinaryStr {
 macro_rules! one {
     ($t:ident, $s:expr) => {{
         let s: String = $s;
+        // look-alike strings are turned into values on this thread first (other letter case, padded,
+        // trimmed, with and without a trailing slash): nothing of them may stick to the observed value
+        {
+            let swap: String = s.chars().map(|c| if c.is_ascii_lowercase() { c.to_ascii_uppercase() } else { c.to_ascii_lowercase() }).collect();
+            for d in [s.to_uppercase(), s.to_lowercase(), swap, format!("{} ", s), s.trim().to_string(), format!("{}/", s), s.trim_end_matches('/').to_string()] {
+                if d != s {
+                    let _ = $t::new(d.clone());
+                    let _: Result<$t, _> = serde_json::from_value(serde_json::Value::String(d));
+                }
+            }
+        }
         let json = serde_json::to_string(&s).unwrap();
         // three deserialisation paths: borrowed text (visit_borrowed_str / visit_str), an owned
         // serde_json::Value (visit_string) and a reader (transient visit_str)
